@@ -1,13 +1,13 @@
 (* C07 — property theorems only. Each is closed by `exact <lemma>` and followed by Print Assumptions.
    Models: Lib/KernelDefs.v (grid kernel over Z, code-shaped), C07/CCWDefs.v (isCCW), generated units Gen/K_*.v.
-   Proofs: Lib/Kernel.v, KernelSeg.v, KernelRing.v, KernelPoly.v, C07/GenTie.v, C07/FloatLink.v, C07/CCWProofs.v. *)
+   Proofs: Lib/Kernel.v, KernelSeg.v, KernelRing.v, KernelPoly.v, C07/GenTie.v, C07/FloatLink.v, C07/DDExact.v, C07/CCWProofs.v. *)
 From Coq Require Import ZArith List Bool Floats.SpecFloat.
 From GeosV.Lib Require Import KernelDefs Kernel KernelSeg KernelRing KernelPoly.
-From GeosV.C07 Require Import CCWDefs CCWProofs GenTie FloatLink SurfTie FilterCoeff.
+From GeosV.C07 Require Import CCWDefs CCWProofs GenTie FloatLink SurfTie FilterCoeff DDExact.
 From GeosV.Lib Require GenPreludeZ GenPreludeF.
 From GeosV.C07 Require PreludeLI PreludeSurf.
 From GeosV.C07 Require RunDefs.    (* entry points of the extracted models: kept in the dependency cone so that they are rebuilt with the generated units *)
-From GeosV.Gen Require K_locatePointInSurface K_countSegment K_getLocation K_envPtZ K_envSegZ K_collinearZ K_intersectZ K_filterF K_orientationIndexF.
+From GeosV.Gen Require K_locatePointInSurface K_countSegment K_getLocation K_envPtZ K_envSegZ K_collinearZ K_intersectZ K_filterF K_orientationIndexF K_ddAdd K_ddSub K_ddMul K_orientationDD.
 Import ListNotations.
 Local Open Scope Z_scope.
 
@@ -55,18 +55,39 @@ Theorem C07_filter_coeff_partial :
   (exists n, sf_scaled K_filterF.lit_0 106 = Some n /\ theta_num <= n < theta_num + 4).
 Proof. exact (conj filter_shape filter_coeff_ge_theta). Qed.
 Print Assumptions C07_filter_coeff_partial.
-(* FULL STATEMENT NOT PROVED (the double-double fall-back):  on the same inputs
-     K_orientationIndexF.g_orientationIndexF (ofZ p1x) (ofZ p1y) (ofZ p2x) (ofZ p2y) (ofZ qx) (ofZ qy) = orient (p1x,p1y) (p2x,p2y) (qx,qy).
-   Proved: the filter half above. Missing: exactness of DD::selfAdd / selfMultiply (TwoSum, Dekker) on these inputs.
-   Covered instead by executing the generated units bit for bit beside the implementation and against the exact sign
-   on det in {0,+-1,+-2,+-3} triples up to 2^25 * 2^k (props/C07.py, streams orient / orient-bits). *)
-Theorem C07_orientationIndex_grid_partial : forall ax ay bx by_ cx cy : Z,
+(* the filter half on its own: whenever the generated filter answers on grid inputs it answers the exact orientation *)
+Theorem C07_filter_orient_grid : forall ax ay bx by_ cx cy : Z,
   Z.abs ax <= 2^25 -> Z.abs ay <= 2^25 -> Z.abs bx <= 2^25 -> Z.abs by_ <= 2^25 -> Z.abs cx <= 2^25 -> Z.abs cy <= 2^25 ->
   let r := K_filterF.c_orientationIndexFilter_6 (GenPreludeF.ofZ ax) (GenPreludeF.ofZ ay) (GenPreludeF.ofZ bx)
                                                 (GenPreludeF.ofZ by_) (GenPreludeF.ofZ cx) (GenPreludeF.ofZ cy) in
   r <> 2 -> r = orient (ax, ay) (bx, by_) (cx, cy).
 Proof. exact filter_orient_grid. Qed.
-Print Assumptions C07_orientationIndex_grid_partial.
+Print Assumptions C07_filter_orient_grid.
+
+(* the double-double operators as GENERATED from DD.cpp (operator+ -> selfAdd(DD) -> selfAdd(hi,lo); operator- -> selfSubtract ->
+   selfAdd(-hi,-lo); operator* -> selfMultiply(DD) -> selfMultiply(hi,lo) with the Veltkamp split by SPLIT = 2^27+1) are exact on DD
+   values of the form (integer, 0): sums and differences while operands and result stay within 2^53, products of operands within 2^26.
+   [ddint d z]: d.hi is a finite binary64 number of value z and d.lo is a zero (C07/DDExact.v, FloatLink.repr). *)
+Theorem C07_dd_ops_exact_int :
+  (forall x y a b, ddint x a -> ddint y b -> Z.abs a <= 2^53 -> Z.abs b <= 2^53 -> Z.abs (a + b) <= 2^53 -> ddint (K_ddAdd.c_opadd_2 x y) (a + b)) /\
+  (forall x y a b, ddint x a -> ddint y b -> Z.abs a <= 2^53 -> Z.abs b <= 2^53 -> Z.abs (a - b) <= 2^53 -> ddint (K_ddSub.c_opsub_2 x y) (a - b)) /\
+  (forall x y a b, ddint x a -> ddint y b -> Z.abs a <= 2^26 -> Z.abs b <= 2^26 -> ddint (K_ddMul.c_opmul_2 x y) (a * b)) /\
+  (forall d z, ddint d z -> K_orientationDD.c_OrientationDD_1 d = Z.sgn z).
+Proof. exact (conj opadd_exact (conj opsub_exact (conj opmul_exact orientationDD_exact))). Qed.
+Print Assumptions C07_dd_ops_exact_int.
+
+(* FULL: the GENERATED CGAlgorithmsDD::orientationIndex (isfinite test, filter, and when the filter says FAILURE the lexicographic sort
+   of the three points with the sign of the permutation, the double-double determinant and OrientationDD), read at binary64, returns
+   exactly the sign of the exact determinant on every triple of grid points (integers of magnitude <= 2^25, the property's bound; the
+   proof needs coordinate differences <= 2^26 and products <= 2^52).  The fall-back is needed for non-zero determinants too: the filter
+   answers FAILURE on triples with det = -1 near the top of the range (Example ex_orientationIndex_boundary). *)
+Theorem C07_orientationIndex_grid : forall ax ay bx by_ cx cy : Z,
+  Z.abs ax <= 2^25 -> Z.abs ay <= 2^25 -> Z.abs bx <= 2^25 -> Z.abs by_ <= 2^25 -> Z.abs cx <= 2^25 -> Z.abs cy <= 2^25 ->
+  K_orientationIndexF.g_orientationIndexF (GenPreludeF.ofZ ax) (GenPreludeF.ofZ ay) (GenPreludeF.ofZ bx)
+                                          (GenPreludeF.ofZ by_) (GenPreludeF.ofZ cx) (GenPreludeF.ofZ cy)
+  = orient (ax, ay) (bx, by_) (cx, cy).
+Proof. exact orientationIndex_grid. Qed.
+Print Assumptions C07_orientationIndex_grid.
 
 (* ================================================================== point in ring *)
 (* PointLocation::isOnSegment decides membership in the closed segment *)
@@ -202,6 +223,18 @@ Example ex_segments :
 Proof. vm_compute. repeat split. Qed.
 Example ex_orient : orient (0,0) (33554432, 33554431) (33554431, 33554430) = -1 /\ orient (0,0) (4,4) (2,2) = 0.
 Proof. vm_compute. split; reflexivity. Qed.
+(* the generated orientationIndex at the range boundary |ordinate| = 2^25: det = -1 with the filter answering FAILURE (so the DD path
+   decides), det = 0 on the diagonal of the grid, det = +1; and DD operands satisfying the hypotheses of C07_dd_ops_exact_int *)
+Example ex_orientationIndex_boundary :
+  filt (2^25 - 1) (2^25 - 2) (2^25 - 2) (2^25 - 3) (- 2^25) (- 2^25) = 2 /\
+  oidx (2^25 - 1) (2^25 - 2) (2^25 - 2) (2^25 - 3) (- 2^25) (- 2^25) = -1 /\
+  orient (2^25 - 1, 2^25 - 2) (2^25 - 2, 2^25 - 3) (- 2^25, - 2^25) = -1 /\
+  oidx (- 2^25) (- 2^25) (2^25) (2^25) 0 0 = 0 /\ oidx (- 2^25) (- 2^25) (2^25) (2^25) 0 1 = 1.
+Proof. vm_compute. repeat split. Qed.
+Example ex_ddint : ddint (GenPreludeF.mk_DD_1 (GenPreludeF.ofZ (2^26))) (2^26) /\ ddint (GenPreludeF.mk_DD_1 (GenPreludeF.ofZ (- 2^26))) (- 2^26) /\
+  K_ddMul.c_opmul_2 (GenPreludeF.mk_DD_1 (GenPreludeF.ofZ (2^26))) (GenPreludeF.mk_DD_1 (GenPreludeF.ofZ (- 2^26)))
+  = GenPreludeF.mk_DD_2 (GenPreludeF.ofZ (- 2^52)) (S754_zero false).
+Proof. split; [ | split]; [apply ddint_mk1, repr_ofZ; vm_compute; discriminate .. | exact opmul_2p26]. Qed.
 Example ex_hole : locate_polygon (2,2) [(0,0);(10,0);(10,10);(0,10);(0,0)] [[(1,1);(3,1);(3,3);(1,3);(1,1)]] = Exterior /\
                   locate_polygon (3,2) [(0,0);(10,0);(10,10);(0,10);(0,0)] [[(1,1);(3,1);(3,3);(1,3);(1,1)]] = Boundary /\
                   locate_segs (5,5) (polygon_segs [(0,0);(10,0);(10,10);(0,10);(0,0)] [[(1,1);(3,1);(3,3);(1,3);(1,1)]]) = Interior.
